@@ -88,12 +88,26 @@ func isNilPointer(v Value) bool {
 	return r.Kind() == reflect.Ptr && r.IsNil()
 }
 
+// unwrapSafe returns the value inside any number of nested SafeValue wrappers.
+// A typed nil pointer to a SafeValue implementation holds nothing.
+func unwrapSafe(v Value) Value {
+	for {
+		sv, ok := v.(SafeValue)
+		if !ok {
+			return v
+		}
+		if isNilPointer(sv) {
+			return nil
+		}
+		v = sv.Value()
+	}
+}
+
 // CoerceBool coerces the given value into a boolean. Boolean false is returned
 // if the value cannot be coerced.
 func CoerceBool(v Value) bool {
+	v = unwrapSafe(v)
 	switch vc := v.(type) {
-	case SafeValue:
-		return CoerceBool(vc.Value())
 	case bool:
 		return vc
 	case Boolean:
@@ -154,9 +168,8 @@ func stringToFloat(s string) float64 {
 // CoerceNumber coerces the given value into a number. Zero (0) is returned
 // if the value cannot be coerced.
 func CoerceNumber(v Value) float64 {
+	v = unwrapSafe(v)
 	switch vc := v.(type) {
-	case SafeValue:
-		return CoerceNumber(vc.Value())
 	case Number:
 		if isNilPointer(vc) {
 			return 0
@@ -211,9 +224,8 @@ func CoerceNumber(v Value) float64 {
 // CoerceString coerces the given value into a string. An empty string is returned
 // if the value cannot be coerced.
 func CoerceString(v Value) string {
+	v = unwrapSafe(v)
 	switch vc := v.(type) {
-	case SafeValue:
-		return CoerceString(vc.Value())
 	case string:
 		return vc
 	case Stringer:
